@@ -8,6 +8,7 @@ from .. import clangjson as cj
 from .. import ir
 from .. import flow
 from ..report import Report
+from ..witness import WitnessTU
 
 PAT_DRIVER = '#include "xtl/xvariant.hpp"\n'
 NPOS = None
@@ -1386,6 +1387,54 @@ def rule_switch(rep, tier):
 
 
 # ---------------------------------------------------------------------------------------------------------------------
+TRAIT_PRELUDE = r"""
+#include "xtl/xvariant.hpp"
+#include <type_traits>
+#include <utility>
+namespace w {
+struct Triv { int x; };
+struct UCopy { UCopy(); UCopy(const UCopy&); UCopy& operator=(const UCopy&) = default; ~UCopy(); int x; };      // counted copies, defaulted assignment
+struct UAssign { UAssign() = default; UAssign(const UAssign&) = default; UAssign& operator=(const UAssign&); int x; };
+struct UDtor { ~UDtor(); int x; };
+struct UMove { UMove(); UMove(UMove&&) noexcept; UMove& operator=(UMove&&) noexcept; UMove(const UMove&) = default; UMove& operator=(const UMove&) = default; int x; };
+struct MoveOnly { MoveOnly(); MoveOnly(MoveOnly&&) noexcept; MoveOnly& operator=(MoveOnly&&) noexcept; MoveOnly(const MoveOnly&) = delete; MoveOnly& operator=(const MoveOnly&) = delete; };
+struct NoAssign { NoAssign(); NoAssign(const NoAssign&) = default; NoAssign& operator=(const NoAssign&) = delete; const int x = 0; };
+template <class P> using V = xtl::variant<P, int>;
+template <int> struct E { };
+template <class S> struct mk;
+template <int... I> struct mk<std::integer_sequence<int, I...>> { using type = xtl::variant<E<I>...>; };
+"""
+
+
+def rule_traits(rep, tier):
+    rep.rule("C05.traits", "special members of variant<P, int> exist and are trivial exactly as [variant.ctor]/[variant.assign]/[variant.dtor] say, for payloads whose copy/move "
+                           "constructors, assignments and destructor are trivial, user-provided or deleted in different combinations (a memberwise assignment of a variant "
+                           "whose alternative has a user-provided copy constructor or destructor would neither destroy the old nor construct the new alternative); the "
+                           "stored index distinguishes every alternative from the valueless state for 255 and 256 alternatives")
+    w = WitnessTU(TRAIT_PRELUDE)
+    T = "std::is_trivially_"
+    for P in ("Triv", "UCopy", "UAssign", "UDtor", "UMove", "MoveOnly", "NoAssign"):
+        v = "V<%s>" % P
+        rows = [
+            ("destructor trivial", "%sdestructible<%s>::value == %sdestructible<%s>::value" % (T, v, T, P)),
+            ("copy constructor trivial", "%scopy_constructible<%s>::value == %scopy_constructible<%s>::value" % (T, v, T, P)),
+            ("copy constructor exists", "std::is_copy_constructible<%s>::value == std::is_copy_constructible<%s>::value" % (v, P)),
+            ("move constructor trivial", "%smove_constructible<%s>::value == %smove_constructible<%s>::value" % (T, v, T, P)),
+            ("copy assignment exists", "std::is_copy_assignable<%s>::value == (std::is_copy_constructible<%s>::value && std::is_copy_assignable<%s>::value)" % (v, P, P)),
+            ("copy assignment trivial", "%scopy_assignable<%s>::value == (%scopy_constructible<%s>::value && %scopy_assignable<%s>::value && %sdestructible<%s>::value)" % (T, v, T, P, T, P, T, P)),
+            ("move assignment exists", "std::is_move_assignable<%s>::value == (std::is_move_constructible<%s>::value && std::is_move_assignable<%s>::value)" % (v, P, P)),
+            ("move assignment trivial", "%smove_assignable<%s>::value == (%smove_constructible<%s>::value && %smove_assignable<%s>::value && %sdestructible<%s>::value)" % (T, v, T, P, T, P, T, P)),
+        ]
+        for what, cond in rows:
+            w.must_hold(cond, "C05.traits", "variant<%s, int>" % P, what, P)
+    for n in (255, 256):
+        w.raw("using V%d = mk<std::make_integer_sequence<int, %d>>::type; constexpr V%d v%d(mpark::in_place_index_t<%d>{});" % (n, n, n, n, n - 1))
+        w.must_hold("v%d.index() == %d && !v%d.valueless_by_exception()" % (n, n - 1, n), "C05.traits", "variant of %d alternatives" % n, "last alternative is distinct from valueless", "index %d" % (n - 1))
+    w.raw("}")
+    for comp, std in ([("clang++", "gnu++17"), ("g++", "gnu++14")] if tier == "quick" else [("clang++", "gnu++14"), ("clang++", "gnu++17"), ("clang++", "gnu++20"), ("g++", "gnu++14"), ("g++", "gnu++17")]):
+        w.run(rep, std=std, compiler=comp)
+
+
 def run(tier):
     rep = Report("C05", tier, "other",
                  "Structural necessary conditions decided on the template patterns of mpark::variant (so for every alternative set at once): "
@@ -1413,9 +1462,9 @@ def run(tier):
     rep.rule("C05.guard", "get reaches the alternative only under holds_alternative<I> and otherwise throws bad_variant_access; get_if tests null and holds_alternative; "
                           "visit tests every operand for valueless; hash visits only a valued variant")
     rep.rule("C05.switch", "in every instantiated 32-way dispatch switch the case labels are B..B+31, each dispatches the alternative of its label, default continues at B+32")
-    configs = [("gnu++17", [])]
+    configs = [("gnu++17", []), ("gnu++17", ["-fno-exceptions"])]       # the exceptions-disabled branch of swap/assign is other code
     if tier == "thorough":
-        configs += [("gnu++14", []), ("gnu++20", []), ("gnu++17", ["-fno-exceptions"])]
+        configs += [("gnu++14", []), ("gnu++20", [])]
     for std, extra in configs:
         d = cj.dump(PAT_DRIVER, "mpark::", std=std, extra=extra)
         rep.cmd(d.cmd)
@@ -1427,4 +1476,5 @@ def run(tier):
         if not extra:
             rule_guard(rep, d, pats)      # without exceptions throw_bad_variant_access terminates: C19 pairs that configuration
     rule_switch(rep, tier)
+    rule_traits(rep, tier)
     return rep
